@@ -178,11 +178,20 @@ func c14Mutate(i *Interpreter, which int) bool {
 		run(`consult(shared_c14), consult(only_a_c14), greeting_c14(hello), secret_c14(_).`)
 	case 21:
 		run(`ensure_loaded(shared_c14), greeting_c14(hello).`)
+	// operations that only read: they must not write anything shared either
+	case 22:
+		run(`forall_c14(current_prolog_flag(_, _), true), current_prolog_flag(double_quotes, _), current_prolog_flag(bounded, true).`)
+	case 23:
+		run(`forall_c14(current_op(_, _, _), true), write_canonical(f(X, 'a b', "s", [1, 2|T], - 1, 1.5e10)), nl, print_message_c14 ; true.`)
+	case 24:
+		run(`findall(X-Y, (member(X, [c, a, b]), member(Y, [2, 1])), L), sort(L, S), keysort(L, K), length(S, N), atom_length(abc, _), atom_chars(A, [x, y]), sub_atom(hello, 1, 2, _, Sub), number_codes(Num, "42"), X2 is 2 ** 10 + max(1, 2).`)
+	case 25:
+		run(`catch(atom_length(1, 2, 3), E, true), catch(atom_length(_, _), E2, true), catch(foo_c14(1), E3, true), copy_term(f(A, B, A), C), term_variables(C, Vs), compare(O, f(A), g(B)), f(A) @< g(B).`)
 	}
 	return ok
 }
 
-const c14NOps = 22
+const c14NOps = 26
 
 func H_C14_frame(inst int) {
 	pr := c14NewPair()
@@ -327,6 +336,7 @@ var c14Programs = []struct{ text, query, want string }{
 	{"edge_c14(na_c14, nb_c14). edge_c14(nb_c14, nc_c14). path_c14(X, Y) :- edge_c14(X, Y). path_c14(X, Z) :- edge_c14(X, Y), path_c14(Y, Z).",
 		"forall_c14(path_c14(na_c14, Y), (write(Y), nl)).", "nb_c14\nnc_c14\n"},
 	{"len_c14(X, L) :- catch(atom_length(X, L), error(E, _), (write(E), nl)).", "len_c14(f(g(h(1))), _), catch(atom_length(1, foo), Ball, true), atom_length(L, _).", "ERR"},
+	{"fl_c14 :- \\+ (current_prolog_flag(F, V), \\+ (write(F-V), nl)).", "fl_c14.", "SOLO"},
 	{":- dynamic(cnt_c14/1). cnt_c14(0).", "retract(cnt_c14(N)), M is N + 1, assertz(cnt_c14(M)), cnt_c14(V), write(V), nl, atom_chars(A, \"made_c14\"), write(A), nl, A == made_c14.", "1\nmade_c14\n"},
 }
 
@@ -363,6 +373,16 @@ func H_C14_two(inst int) {
 			return res{ok: e == "error(instantiation_error,atom_length/2)", err: "", out: "ERR"}
 		}
 		return res{ok: ok, err: e, out: out.String()}
+	}
+	// a program whose expectation is "SOLO" is idempotent: its expected result is what it gives when run alone first
+	// (A and B get different flag values beforehand, so that their listings differ)
+	_ = pr.a.Exec(":- set_prolog_flag(debug, on), set_prolog_flag(unknown, fail).")
+	_ = pr.b.Exec(":- set_prolog_flag(char_conversion, on).")
+	if progA.want == "SOLO" {
+		progA.want = runOne(pr.a, pr.outA, progA).out
+	}
+	if progB.want == "SOLO" {
+		progB.want = runOne(pr.b, pr.outB, progB).out
 	}
 	done := make(chan int)
 	var ra, rb res
